@@ -188,6 +188,20 @@ claim("C08", "proof",
       "covered by correspondence, not proved; the nodup hypothesis of the bijection theorem is evaluated on every CFG.",
       "Lean 4 proof (bijection / kinds / secondaries on the pass model) + per-CFG correspondence + source-level counting oracle", "5 (C08)")
 
+claim("C19", "proof",
+      "Lean 4 theorems (Props/C19.lean) on the model of FileStack + the parse_files loop over an abstract file system in which a file is its "
+      "canonical path: for every include graph, named-file list and library list, n+1 iterations empty the stack and more iterations change "
+      "nothing (termination incl. cycles and self-includes); no file is handed to the parser twice (for every number of iterations); the files "
+      "read are exactly those reachable through resolvable includes; resolution = relative to the including file, else first matching library "
+      "in command-line order; the error list = the unresolved includes of the files read, each with its file and position; a file is a user "
+      "input iff its canonical path was named, and every named file is read. Tie per run: generated directory trees (6 directories, file and "
+      "directory symlinks, 8 spellings, cycles, unparsable/unreadable files, directory and single-file libraries) are abstracted by an "
+      "independent resolver; order of reads, user flags and ordered located errors of the real parse_files = model (L2); reachability oracle, "
+      "no duplicate, error located exactly at the include statement, only named files' definitions analysed and displayed, binary exit 0/1 (L1).",
+      "Lean kernel + standard axioms; the OS (canonicalize, is_dir, read_to_string) is abstracted into the tables computed by "
+      "checks/c19.py with Python's realpath/isfile; directory inputs (read_dir order) are not generated.",
+      "Lean 4 proof (invariant + termination measure for the include work list) + correspondence on materialised trees + reachability oracle", "5 (C19)")
+
 ALL = ["C%02d" % i for i in range(1, 21)]
 def main():
     checks = []
